@@ -63,6 +63,9 @@ def committed_goal_case(rep, drv, rnd, i):
     prog.append(('wide', nine, 'tru'))
     callers += [('t15', [V('X')], ('conj', ('call', 'call', [('A', 'wide')] + nine[:8] + [V('X')]), 'tru')),
                 ('t16', [V('X')], ('call', 'call', [('F', 'wide', nine[:1])] + nine[1:8] + [V('X')]))]
+    callers += [('t17', [V('L')], ('call', 'findall', [V('X'), ('F', 'chain2', [V('X')]), V('L')])),
+                ('t18', [V('L')], ('call', 'findall', [('F', 'box', [V('X')]), ('F', 'chain2', [V('X')]), V('L')]))]
+    prog.append(('chain2', [V('X')], ('conj', ('call', '=', [V('X'), V('Y')]), ('call', 'it', [V('Y')])), True))
     callers = [(n, h, _fix(b)) for n, h, b in callers]
     prog.append(('al3', [V('X'), V('Y'), V('Z')], ('conj', ('call', '=', [V('X'), V('Z')]), ('call', 'it', [V('Y')])), True))
     chosen = rnd.sample(callers, rnd.randint(4, len(callers)))
@@ -88,6 +91,16 @@ def cleared_case(rep, drv, rnd, i):
     api = [('query', 'findall', ('all',), [[Sym('v'), 0], [Sym('f'), 'nothing_here', [Sym('v'), 0]], nil]),
            ('query', '=', ('all',), [nil, [Sym('v'), 1]]),
            ('query', 'findall', ('all',), [[Sym('v'), 0], [Sym('f'), '=', [Sym('v'), 0], nil], [Sym('f'), '.', nil, nil]])]
+    if i % 48 == 3:
+        # a findall with more than a hundred solutions
+        api = api + [('assert', 'big', 'z', [[Sym('i'), k_]]) for k_ in range(130)] + \
+            [('query', 'findall', ('all',), [[Sym('v'), 0], [Sym('f'), 'big', [Sym('v'), 0]], [Sym('v'), 1]])]
+        # ... and one whose goal recurses a hundred levels down a list
+        lst = [Sym('a'), '[]']
+        for k_ in range(100):
+            lst = [Sym('f'), '.', [Sym('i'), k_], lst]
+        prog = prog + [('mem2', [V('X'), ('P', [V('X')], ('_',))], 'tru'), ('mem2', [V('X'), ('P', [('_',)], V('T'))], ('call', 'mem2', [V('X'), V('T')]), True)]
+        api = api + [('query', 'findall', ('all',), [[Sym('v'), 0], [Sym('f'), 'mem2', [Sym('v'), 0], lst], [Sym('v'), 1]])]
     ops = [('load', 'overwrite', prog)] + qs[:1] + api + [('clear',)] + qs[:1] + api + [('load', 'overwrite', prog)] + qs + api
     rep.count('builtins-after-clear')
     if scen.three_way(rep, drv, ops, 'case %d after clear' % i) == 'ok':
